@@ -111,7 +111,7 @@ def _model(case):
                      cells=[[n, px] for n, px in case["cells"]])
 
 
-def _observe(path, names, model_paths):
+def _observe(path, names, model_paths, scale=1):
     out = {}
     try:
         out["is_scool"] = bool(fileops.is_scool_file(path))
@@ -132,10 +132,13 @@ def _observe(path, names, model_paths):
             extras = sorted([str(col), _series_rep(bt[col])] for col in bt.columns if col not in ("chrom", "start", "end"))
             cells.append({
                 "name": name,
-                "pixels": [[int(a), int(b), int(v)] for a, b, v in zip(px["bin1_id"], px["bin2_id"], px["count"])],
+                "pixels": [[int(a), int(b), (int(v * scale) if float(v * scale) == int(v * scale) else float(v * scale))]
+                           for a, b, v in zip(px["bin1_id"], px["bin2_id"], px["count"])],
+                "count_dtype": str(px["count"].dtype),
                 "bins": [[None if pd.isna(ch) else str(ch), int(s), int(e)] for ch, s, e in zip(bt["chrom"], bt["start"], bt["end"])],
                 "extras": extras,
-                "info": {k: (v.item() if hasattr(v, "item") else v) for k, v in info.items()},
+                "info": {k: ((v.item() if hasattr(v, "item") else v) * (scale if k == "sum" else 1)) if k == "sum"
+                         else (v.item() if hasattr(v, "item") else v) for k, v in info.items()},
             })
         except Exception as e:  # noqa  an in-domain cell must be readable
             cells.append({"name": name, "raised": errclass(e)})
@@ -194,12 +197,18 @@ def _scool(case):
             bins = {name: _bins_df(case["rows"], ex, None if case.get("col_order") is None else case["col_order"] + k)
                     for k, (name, ex) in enumerate(case["percell"])}
         cells = {n: _px_df(px) for n, px in case["cells"]}
+        kw = {}
+        if case.get("quarter"):
+            # the count column given as float64 holding count/4 and requested as float64 (the integer model answers: x4)
+            for df in cells.values():
+                df["count"] = df["count"].astype(np.float64) / 4.0
+            kw["dtypes"] = {"count": "float64"}
         try:
-            cooler.create_scool(path, bins, cells, symmetric_upper=case["symm"])
+            cooler.create_scool(path, bins, cells, symmetric_upper=case["symm"], **kw)
         except Exception as e:  # noqa
             return {"mismatch": True, "what": "create_scool raised on an in-domain input", "impl": errclass(e), "msg": str(e)[:200]}
         model_paths = [p for p, _ in m["objects"]]
-        im = _observe(path, names, model_paths)
+        im = _observe(path, names, model_paths, 4 if case.get("quarter") else 1)
     finally:
         if os.path.exists(path):
             os.unlink(path)
@@ -219,6 +228,8 @@ def _scool(case):
         else:
             if ic["pixels"] != mc["pixels"]:
                 d["pixels"] = {"impl": ic["pixels"], "model": mc["pixels"]}
+            if ic["count_dtype"] != ("float64" if case.get("quarter") else "int32"):
+                d["count_dtype"] = {"impl": ic["count_dtype"], "requested": "float64" if case.get("quarter") else "int32 (default)"}
             if ic["bins"] != mc["bins"]:
                 d["bins"] = {"impl": ic["bins"], "model": mc["bins"]}
             if ic["extras"] != sorted(mc["extras"]):
@@ -329,6 +340,8 @@ def cases(tier, rng):
             case["percell"] = pc
         if i % 3 == 2:
             case["col_order"] = rng.randrange(10 ** 6)   # the bin frame's columns in a shuffled order
+        if i % 4 == 1:
+            case["quarter"] = True                       # float64 count column (count/4), requested as float64
         yield "scool", case
 
 
